@@ -2793,6 +2793,13 @@ public:
       return;
     }
 
+    if (!(lhs == rhs)) {
+      // The old contents of lhs are gone, including the cells that
+      // rhs does not have (their ghost variables would otherwise keep
+      // their values and be picked up again by a later access).
+      forget_array(lhs);
+    }
+
     const array_state &as = lookup_array_state(rhs);
     if (!as.is_smashed()) {
       offset_map_t lhs_om;
